@@ -499,14 +499,19 @@ def run_wire(case):
 class Check(PropertyCheck):
     prop = "C28"
     design_ref = "§5 C28"
-    level_text = ("Lean theorems (27) for ALL inputs about the model of WebsocketLayer.relay_messages + Fragmentizer and the transcribed "
+    level_text = ("Lean theorems (35) for ALL inputs about the model of WebsocketLayer.relay_messages + Fragmentizer and the transcribed "
                   "wsproto receive/send path (frame codec, message decoder incl. its strict incremental UTF-8 decoder, close parsing). "
                   "Clause table (statement clause -> theorems | oracle clauses): "
                   "(1) every message, as modified/dropped/injected, delivered exactly once, in order, as ONE message of the same type, "
-                  "any fragmentation/segmentation -> each_message_once_in_order, each_message_once_in_order_wsproto (no crash "
-                  "hypothesis: no_crash_when_close_is_last + stream_events_close_last), each_burst_is_one_message, "
-                  "injected_recorded_once, message_wire_roundtrip, text_message_wire_roundtrip_any_cuts, wire_message_end_to_end, "
-                  "frame_roundtrip, stream_roundtrip, partial_frame_events_insensitive | 'n sent/injected, m recorded', 'recorded "
+                  "any fragmentation/segmentation -> recorded_is_what_was_sent (+ _until_close: WHOLE interleaved histories, "
+                  "flow.websocket.messages = sentMessages(history), a function of the events alone) composed with "
+                  "each_message_once_in_order / each_message_once_in_order_wsproto (no crash hypothesis: "
+                  "no_crash_when_close_is_last + stream_eventsU_close_last, the latter about the decoder the driver runs), "
+                  "each_burst_is_one_message, injected_recorded_once, message_wire_roundtripU, "
+                  "text_message_wire_roundtrip_any_cuts, wire_message_end_to_endU, wire_text_message_end_to_end_any_cuts, "
+                  "sent_text_is_strictly_utf8, frame_roundtrip, stream_roundtrip, partial_frame_events_insensitive "
+                  "(message_wire_roundtrip / wire_message_end_to_end / stream_events_close_last are the same statements for "
+                  "the decoder WITHOUT the UTF-8 step, `streamEvents`, which no driver op runs: kept as auxiliary forms) | 'n sent/injected, m recorded', 'recorded "
                   "type/direction/injected differ', 'was not delivered', 'delivered with the other type', 'peer received k, j expected', "
                   "'burst is not exactly one message'. (2) content equals the recorded content -> delivered_equals_recorded, "
                   "binary_exact, text_exact, text_exact_utf8, text_frames_cut_anywhere, text_message_cut_anywhere_recorded | 'recorded "
@@ -514,7 +519,7 @@ class Check(PropertyCheck):
                   "concatenate to'. (3) unmodified messages keep their frame boundaries -> unmodified_keeps_boundaries, "
                   "unmodified_message_keeps_frames, unmodified_text_message_any_cuts, text_buffer_stays_valid, decoder_output_is_utf8 | "
                   "'unmodified but frame boundaries changed', 'unmodified message re-fragmented'. (4) pings and pongs are relayed -> "
-                  "pings_pongs_relayed, controls_relayed_in_order | 'pings/pongs from x: sent .. relayed ..'. (5) recorded close code "
+                  "pings_pongs_relayed, controls_relayed_in_order, controls_relayed_until_close | 'pings/pongs from x: sent .. relayed ..'. (5) recorded close code "
                   "and reason are the closing peer's -> close_code_reason_recorded, close_recorded_in_history | 'close recorded as'. "
                   "Ties: san + Fragmentizer; the whole layer between in-memory wsproto peers (+-deflate with negotiated parameters, "
                   "keep/edit/drop/inject); end to end through the HttpLayer upgrade; the frame codec, event mapping and incremental "
@@ -526,7 +531,9 @@ class Check(PropertyCheck):
                   "and wsproto's events on frames cut inside characters, and its outputs are proved UTF-8 (decoder_output_is_utf8). "
                   "The `crashed` hypothesis of the run-level theorems is derived for every history whose batches carry a close only "
                   "as last event (no_crash_when_close_is_last), which the transcribed receive path guarantees "
-                  "(stream_events_close_last). The wire model decodes whole frames; delivery of a frame in pieces is covered at event "
+                  "(stream_eventsU_close_last, for `streamEventsU`, the function the `fev` driver op runs against wsproto). The tied "
+                  "functions of the wire theorems are encodeFrame (fenc), decodeStream (fdec), streamEventsU (fev), decodeChunks "
+                  "(uinc); `streamEvents`/`framesEvents` (no UTF-8 step) are untied auxiliaries. The wire model decodes whole frames; delivery of a frame in pieces is covered at event "
                   "level (partial_frame_events_insensitive); wsproto's EARLY report of sequencing errors on incomplete frames is "
                   "outside the model (truncated streams: complete frames compared only). In the layer tie the model consumes the "
                   "events a shadow wsproto connection yields for the same bytes (e2e: the bytes the layer's connections received) "
